@@ -506,6 +506,15 @@ class T(_np.ndarray):
     def t(s): return wrap(_np.asarray(s).T) if s.ndim == 2 else s
     def movedim(s, a, b): return wrap(_np.moveaxis(_np.asarray(s), a, b))
     def swapaxes(s, a, b): return wrap(_np.swapaxes(_np.asarray(s), a, b))
+    def all(s, axis=None, dim=None, keepdim=False, keepdims=False, **k): return _bool_reduce(s, axis if axis is not None else dim, True, keepdim or keepdims)
+    def any(s, axis=None, dim=None, keepdim=False, keepdims=False, **k): return _bool_reduce(s, axis if axis is not None else dim, False, keepdim or keepdims)
+    def _inplace(s, r):
+        _np.asarray(s)[...] = _np.broadcast_to(_np.asarray(r, dtype=object), s.shape)
+        return s
+    def mul_(s, o): return s._inplace(s * o)
+    def add_(s, o): return s._inplace(s + o)
+    def sub_(s, o): return s._inplace(s - o)
+    def div_(s, o): return s._inplace(s / o)
     def masked_fill(s, mask, value):
         # x.masked_fill(mask, v) = torch.where(mask, full_like(x, v), x); goes through the recipe's where hook if there is one
         fill = _full(tuple(s.shape), _fill_value(value)) if not isinstance(value, _np.ndarray) else value
@@ -999,6 +1008,25 @@ def _out(res, k):
     return out
 
 
+def _bool_reduce(x, axis, conj, keepdims=False):
+    """all / any of an array of symbolic (or concrete) truth values along an axis: the conjunction / disjunction of the entries"""
+    a = _np.asarray(x if isinstance(x, _np.ndarray) else wrap(x), dtype=object)
+    def fold(v):
+        r = None
+        for e in v:
+            e = e if isinstance(e, B) else B.lift(e)
+            r = e if r is None else ((r & e) if conj else (r | e))
+        return r if r is not None else B('const', conj)
+    if axis is None:
+        return fold(a.reshape(-1))
+    if isinstance(axis, (tuple, list)): raise TraceError('all/any over several axes')
+    moved = _np.moveaxis(a, axis, -1)
+    out = _np.empty(moved.shape[:-1], dtype=object)
+    for ix in _np.ndindex(*out.shape): out[ix] = fold(moved[ix])
+    if keepdims: out = _np.expand_dims(out, axis)
+    return wrap(out) if out.shape != () else out[()]
+
+
 def _obj(x):
     return _np.asarray(x if isinstance(x, _np.ndarray) else wrap(x), dtype=object)
 
@@ -1008,6 +1036,8 @@ def _structural(d, torch_like):
     Added so that clean-ups which merely re-spell the plumbing (np.expand_dims for [None], torch.movedim for permute, hstack for
     concatenate, ...) trace like the code they replace."""
     ax = 'dim' if torch_like else 'axis'
+    d.setdefault('all', lambda x, axis=None, dim=None, **k: _bool_reduce(x, axis if axis is not None else dim, True, k.get('keepdim') or k.get('keepdims') or False))
+    d.setdefault('any', lambda x, axis=None, dim=None, **k: _bool_reduce(x, axis if axis is not None else dim, False, k.get('keepdim') or k.get('keepdims') or False))
     d.setdefault('expand_dims', lambda x, axis: wrap(_np.expand_dims(_obj(x), axis)))
     d.setdefault('swapaxes', lambda x, a, b: wrap(_np.swapaxes(_obj(x), a, b)))
     d.setdefault('moveaxis', lambda x, a, b: wrap(_np.moveaxis(_obj(x), a, b)))
@@ -1021,8 +1051,8 @@ def _structural(d, torch_like):
     d.setdefault('column_stack', lambda xs: wrap(_np.column_stack([_obj(x) for x in xs])))
     d.setdefault('concat', d.get('cat') or d.get('concatenate'))
     d.setdefault('ravel', lambda x: wrap(_obj(x).reshape(-1)))
-    d.setdefault('full', lambda shape, v, **k: _full(tuple(shape) if not isinstance(shape, int) else (shape,), _fill_value(v)))
-    d.setdefault('full_like', lambda x, v, **k: _full(_np.shape(x), _fill_value(v)))
+    d.setdefault('full', lambda shape, fill_value, **k: _full(tuple(shape) if not isinstance(shape, int) else (shape,), _fill_value(fill_value)))
+    d.setdefault('full_like', lambda x, fill_value, **k: _full(_np.shape(x), _fill_value(fill_value)))
     d.setdefault('empty_like', lambda x, **k: _full(_np.shape(x), const(0)))
     d.setdefault('empty', lambda *shape, **k: _full(tuple(shape[0]) if len(shape) == 1 and not isinstance(shape[0], int) else tuple(shape), const(0)))
     d.setdefault('outer', lambda a, b: wrap(_np.multiply.outer(_obj(a).reshape(-1), _obj(b).reshape(-1))))
@@ -1062,8 +1092,14 @@ def make_torch():
     d['ones'] = lambda *n, **k: _full(_shape_args(n), const(1))
     d['zeros_like'] = lambda x, **k: const(0) if isinstance(x, (E, CE, int, float)) else _full(x.shape, const(0))
     d['ones_like'] = lambda x, **k: const(1) if isinstance(x, (E, CE, int, float)) else _full(x.shape, const(1))
-    d['full_like'] = lambda x, v, **k: _full(x.shape, _fill_value(v))       # added for C11/C12
-    d['full'] = lambda shape, v, **k: _full(shape, _fill_value(v))              # added for C11/C12
+    def _full_like(x, fill_value=None, **k):                                   # added for C11/C12; `fill_value` by keyword too (functools.partial(torch.full_like, fill_value=nan))
+        if fill_value is None: raise TraceError('full_like without a fill value')
+        return _full(x.shape, _fill_value(fill_value))
+    def _full_(size, fill_value=None, **k):
+        if fill_value is None: raise TraceError('full without a fill value')
+        return _full(size, _fill_value(fill_value))
+    d['full_like'] = _full_like
+    d['full'] = _full_
     d['eye'] = lambda n, **k: wrap(_np.eye(n, dtype=int))
     d['stack'] = _stack
     d['cat'] = _cat
@@ -1232,6 +1268,13 @@ def make_math():
     d['degrees'] = lambda x: _lift(_scalar(x)).degrees()
     d['pi'] = PI
     d['floor'] = math.floor
+    def _prod(xs, start=1):
+        r = start
+        for x in xs: r = r * x
+        return r
+    d['prod'] = _prod
+    d['hypot'] = lambda a, b: mk('sqrt', _lift(_scalar(a)) * _lift(_scalar(a)) + _lift(_scalar(b)) * _lift(_scalar(b)))
+    d['isnan'] = lambda x: False if isinstance(x, (E, CE)) else math.isnan(x)
     d['ceil'] = math.ceil
     return m
 
@@ -1308,7 +1351,37 @@ def binder(relpath, fname, cls=None):
     return bind
 
 
-def _bind_stdlib_imports(tree, path, ns):
+def _bind_package_imports(tree, path, ns, depth=0):
+    """`from .util import _helper` / `from ..perception.util import _plane_stack`: names a file imports from a sibling module of
+    the package and the namespace lacks are bound from that module's source (functions, classes, constants), one level deep"""
+    if depth > 1: return
+    for n in tree.body:
+        if not isinstance(n, ast.ImportFrom) or any(a.name == '*' for a in n.names): continue
+        if n.level:
+            base = os.path.dirname(path)
+            for _ in range(n.level - 1): base = os.path.dirname(base)
+            target = os.path.join(base, *(n.module.split('.') if n.module else []))
+        elif (n.module or '').split('.')[0] == 'odak':
+            target = os.path.join(REPO, *n.module.split('.'))
+        else:
+            continue
+        cand = target + '.py' if os.path.isfile(target + '.py') else os.path.join(target, '__init__.py')
+        if not os.path.isfile(cand): continue
+        want = {a.name: (a.asname or a.name) for a in n.names if (a.asname or a.name) not in ns}
+        if not want: continue
+        try:
+            sub = ast.parse(open(cand).read())
+        except Exception:
+            continue
+        tmp = dict(ns)
+        _bind_stdlib_imports(sub, cand, tmp, _packages=False)
+        _bind_package_imports(sub, cand, tmp, depth + 1)
+        _bind_module_level(sub, cand, tmp)
+        for real, alias in want.items():
+            if real in tmp and alias not in ns: ns[alias] = tmp[real]
+
+
+def _bind_stdlib_imports(tree, path, ns, _packages=True):
     """plain standard-library helpers the file imports at module level (itertools.product for nested loops, operator.lt in a
     table, ...) are bound in the tracing namespace unless the name is bound already"""
     for n in tree.body:
@@ -1326,6 +1399,43 @@ def _bind_stdlib_imports(tree, path, ns):
                             if b in tmp: ns.setdefault(b, tmp[b])
                     except Exception:
                         pass
+    if _packages:
+        _bind_package_imports(tree, path, ns)
+
+
+def _bind_module_level(tree, path, ns, reserved=()):
+    """bind what else the file defines at module level and the namespace lacks: private helper functions, private classes and
+    namedtuples, constants (tables, slice objects, functools.partial objects).  Definitions are tried in source order until no
+    further one succeeds (they may depend on each other); one that cannot be evaluated under the shim stays unbound and raises
+    NameError if it is ever needed (fail-closed).  Names the recipe or the shim already bound, and `reserved`, are left alone."""
+    def names_of(n):
+        if isinstance(n, (ast.FunctionDef, ast.ClassDef)): return [n.name]
+        if isinstance(n, ast.Assign):
+            out = []
+            for t in n.targets:
+                if isinstance(t, ast.Name): out.append(t.id)
+                elif isinstance(t, (ast.Tuple, ast.List)) and all(isinstance(e, ast.Name) for e in t.elts): out += [e.id for e in t.elts]
+                else: return None
+            return out
+        if isinstance(n, ast.AnnAssign) and isinstance(n.target, ast.Name) and n.value is not None: return [n.target.id]
+        return None
+    pending = []
+    for n in tree.body:
+        nm = names_of(n)
+        if nm and not any(x in ns or x in reserved or x.startswith('__') for x in nm):
+            pending.append(n)
+    for _ in range(4):
+        rest = []
+        for n in pending:
+            if isinstance(n, (ast.FunctionDef, ast.ClassDef)): n.decorator_list = [d for d in n.decorator_list if isinstance(n, ast.ClassDef)]
+            mod = ast.Module([n], []); ast.fix_missing_locations(mod)
+            try:
+                exec(compile(mod, path, 'exec'), ns)
+            except Exception:
+                rest.append(n)
+        if len(rest) == len(pending): break
+        pending = rest
+    return pending
 
 
 def load(relpath, names_, ns, cls=None, expose=None):
@@ -1337,6 +1447,9 @@ def load(relpath, names_, ns, cls=None, expose=None):
     body = tree.body
     if cls is not None:
         body = [n for n in tree.body if isinstance(n, ast.ClassDef) and n.name == cls][0].body
+    _bind_stdlib_imports(tree, path, ns)
+    # module-level helpers, private classes and constants first: a requested function may use one in a default argument
+    _bind_module_level(ast.parse(src), path, ns, reserved=set(names_) | ({cls} if cls else set()))
     found = set()
     for n in body:
         if isinstance(n, ast.FunctionDef) and n.name in names_:
@@ -1351,37 +1464,29 @@ def load(relpath, names_, ns, cls=None, expose=None):
     missing = set(names_) - found
     if missing:
         raise TraceError('%s: function(s) %s not found' % (relpath, sorted(missing)))
-    _bind_stdlib_imports(tree, path, ns)
-    # module-level helpers of the same file that the namespace does not define yet (a private helper a refactoring introduces
-    # must resolve when a traced function calls it); names the recipe or the shim already bound are left alone
-    for n in tree.body:
-        if isinstance(n, ast.FunctionDef) and n.name not in ns and n.name not in names_:
-            n.decorator_list = []
-            mod = ast.Module([n], [])
-            ast.fix_missing_locations(mod)
-            try:
-                exec(compile(mod, path, 'exec'), ns)
-            except Exception:
-                pass
+    # and once more for what needed the requested functions themselves (e.g. a functools.partial of one of them)
+    _bind_module_level(ast.parse(src), path, ns, reserved=set(names_) | ({cls} if cls else set()))
     return ns
 
 
 def load_all(relpath, ns, skip=()):
-    """define EVERY top-level function of /repo/<relpath> inside ns (definitions only; nothing is run), so that private
-    helpers a refactoring introduces resolve when the traced functions call them.  A definition whose default arguments
+    """define EVERY top-level function (and private class / constant) of /repo/<relpath> inside ns (definitions only; nothing is
+    run), so that private helpers a refactoring introduces resolve when the traced functions call them.  A definition that
     cannot be evaluated under the shim is skipped (it raises if it is ever needed: fail-closed)."""
     path = os.path.join(REPO, relpath)
-    tree = ast.parse(open(path).read())
+    src = open(path).read()
+    tree = ast.parse(src)
     _bind_stdlib_imports(tree, path, ns)
-    done = []
-    for n in tree.body:
-        if isinstance(n, ast.FunctionDef) and n.name not in skip:
+    before = set(ns)
+    _bind_module_level(tree, path, ns, reserved=set(skip))
+    done = [n.name for n in ast.parse(src).body if isinstance(n, ast.FunctionDef) and n.name in ns and n.name not in skip]
+    # functions the namespace already had under the same name are redefined from the file, as before
+    for n in ast.parse(src).body:
+        if isinstance(n, ast.FunctionDef) and n.name not in skip and n.name in before:
             n.decorator_list = []
-            mod = ast.Module([n], [])
-            ast.fix_missing_locations(mod)
+            mod = ast.Module([n], []); ast.fix_missing_locations(mod)
             try:
                 exec(compile(mod, path, 'exec'), ns)
-                done.append(n.name)
             except Exception:
                 pass
     return done
